@@ -78,6 +78,62 @@ theorem C03_client_fail_closed (cm : List (String × Mech)) (adv : List String) 
   | false => rfl
   | true => exact absurd (C03_client_sound cm adv peer ha).1 h
 
+/-- **Write failures and cancellation on the initiating side.**  Whatever the connection
+does (it may stop accepting writes after any number of elements) and whenever the context is
+cancelled, a result that carries the `Authn` bit is exactly the result of the exchange on a
+healthy connection with a live context — so everything `C03_client_sound` says holds for it:
+in particular `<auth/>` and every `<response/>` were written, the mechanism completed and
+`<success/>` was the last element read. -/
+theorem C03_client_env (env : CEnv) (cm : List (String × Mech)) (adv : List String) (peer : List CEv)
+    (h : (clientNegE env cm adv peer).authn = true) :
+    clientNegE env cm adv peer = clientNeg cm adv peer := by
+  unfold clientNegE at h ⊢
+  unfold clientNeg
+  cases hs : select cm adv with
+  | none => simp [hs, fail] at h
+  | some nm =>
+    obtain ⟨name, mech⟩ := nm
+    simp only [hs] at h ⊢
+    by_cases hn : name = ""
+    · simp [hn, fail] at h
+    · simp only [hn, if_false] at h ⊢
+      cases hk : (mech []).kind with
+      | authnErr => simp [hk, fail] at h
+      | otherErr => simp [hk, fail] at h
+      | more =>
+        simp only [hk] at h ⊢
+        by_cases hw : env.canWrite = true
+        · simp only [hw, if_true] at h ⊢
+          rw [clientLoopE_eq mech peer env.wrote 0 [] h]
+        · simp [hw, fail] at h
+      | done =>
+        simp only [hk] at h ⊢
+        by_cases hw : env.canWrite = true
+        · simp [hw]
+        · simp [hw, fail] at h
+
+/-- an error — including a failed write and a cancelled context — is never returned together
+with the `Authn` bit -/
+theorem C03_client_env_fail_closed (env : CEnv) (cm : List (String × Mech)) (adv : List String)
+    (peer : List CEv) (h : (clientNegE env cm adv peer).err ≠ .none) :
+    (clientNegE env cm adv peer).authn = false := by
+  cases ha : (clientNegE env cm adv peer).authn with
+  | false => rfl
+  | true =>
+    rw [C03_client_env env cm adv peer ha] at h ha
+    exact absurd (C03_client_sound cm adv peer ha).1 h
+
+-- non-vacuity: the connection fails on the second element / the context is cancelled after
+-- the first challenge: error, no Authn; and a healthy environment authenticates
+example :
+    let mech : Mech := fun h => if h.length < 1 then { kind := .more, resp := [1] } else { kind := .done }
+    let peer := [CEv.challenge (.valid [7]), .success .empty]
+    (clientNegE ⟨some 1, none⟩ [("M", mech)] ["M"] peer).err = .writeErr ∧
+    (clientNegE ⟨some 1, none⟩ [("M", mech)] ["M"] peer).authn = false ∧
+    (clientNegE ⟨none, some 0⟩ [("M", mech)] ["M"] peer).err = .ctxErr ∧
+    (clientNegE ⟨some 2, some 1⟩ [("M", mech)] ["M"] peer).authn = true := by
+  decide
+
 /-- **Negative cases.**  Whatever the mechanism: an authenticated result has read at least
 one element (so EOF right after `<auth/>` never authenticates), and nothing it has read is a
 `<failure/>`, an unknown element, an element of another namespace, stray character data, or a
